@@ -9,7 +9,7 @@
 (* A draw u stands for the real number u / R (R a multiple of D, so that   *)
 (* points strictly between breakpoints exist).                             *)
 (***************************************************************************)
-EXTENDS Integers, Sequences, FiniteSets, TLC
+EXTENDS HoneyDefs, TLC
 
 CONSTANTS Lists,   \* set of lists to explore
           D,       \* denominator of the probabilities
@@ -21,22 +21,9 @@ Init == lst \in Lists /\ u \in 0..(R - 1)
 Next == UNCHANGED vars
 Spec == Init /\ [][Next]_vars
 
-Mass(e) == e.w * e.n
-RECURSIVE Cum(_, _)
-Cum(l, j) == IF j = 0 THEN 0 ELSE Cum(l, j - 1) + Mass(l[j])
-
-(* the loop of random_walk:  cur_prob += prob * len(values); if cur_prob >= prob_target: pick, break   *)
-(* (comparison of cur/D with u/R done in integers); index 1 stays selected if the loop never breaks   *)
-RECURSIVE WalkFrom(_, _, _, _)
-WalkFrom(l, j, cur, t) == IF j > Len(l) THEN 1
-                          ELSE IF (cur + Mass(l[j])) * R >= t * D THEN j
-                          ELSE WalkFrom(l, j + 1, cur + Mass(l[j]), t)
-Walk(l, t) == WalkFrom(l, 1, 0, t)
-
-(* P-layer: entry j owns the half-open interval (Cum(j-1)/D, Cum(j)/D]; 0 belongs to the first entry *)
-Owner(l, t) == IF t = 0 THEN 1
-               ELSE CHOOSE j \in 1..Len(l) : Cum(l, j - 1) * R < t * D /\ t * D <= Cum(l, j) * R
-WellFormed(l) == Cum(l, Len(l)) = D /\ \A j \in DOMAIN l : l[j].w > 0 /\ l[j].n > 0
+Walk(l, t) == WalkDR(l, t, D, R)           \* I-layer: the accumulation loop (HoneyDefs)
+Owner(l, t) == OwnerDR(l, t, D, R)         \* P-layer: owner of the draw
+WellFormed(l) == WellFormedD(l, D)
 
 (* C16: the walk selects the owner of the draw, hence entry j is drawn with probability Mass(j)/D, and   *)
 (* each of its n values (uniform pick) with probability w/D                                           *)
